@@ -364,6 +364,22 @@ func exhaustiveC02(thorough bool, emit func(C02Case) bool) {
 			return
 		}
 	}
+	// multi-byte tokens at the start and inside of every field, first and later records
+	for _, tok := range gen.HostileTokens {
+		for pos := 0; pos < 2; pos++ {
+			val := append(append(gen.B{}, tok...), 'x')
+			if pos == 1 {
+				val = append(append(gen.B{'x'}, tok...), 'y')
+			}
+			if bytes.ContainsAny(val, "\r\n") {
+				continue
+			}
+			r := FastqRec{Name: val, Seq: gen.Lit(val), Quals: gen.Lit(val)}
+			if !emit(C02Case{Recs: []FastqRec{r, mk("plain", "AC", "II"), r}}) {
+				return
+			}
+		}
+	}
 	// every (record, kind) and every truncation offset
 	for _, f := range files {
 		for k := range f {
